@@ -695,3 +695,50 @@ class FaultPlan:
         if bool(hit):
             self.fired_at = (i, site)
             raise Boom(f"injected failure at callback #{i} ({site})")
+
+
+# --------------------------------------------------------------------------------------------
+# process-wide mutable state of the library (mutable default arguments): restored before every path
+
+_IMMUTABLE = (type(None), bool, int, float, complex, str, bytes, frozenset, type, types.FunctionType, types.BuiltinFunctionType)
+
+
+def _is_immutable(v):
+    if isinstance(v, _IMMUTABLE):
+        return True
+    if isinstance(v, tuple):
+        return all(_is_immutable(x) for x in v)
+    return False
+
+
+def snapshot_mutable_defaults(prefix=IXAI_PREFIX):
+    """Finds every function of the library whose default arguments hold a mutable object (evaluated once at import and
+    therefore shared process-wide) and returns a hook that re-creates pristine copies.  Without it such an object would
+    leak state from one explored path into the next; with it, each path starts from the state of a fresh interpreter
+    while the sharing BETWEEN objects created within one path (what a real program sees) is kept."""
+    import copy
+    import inspect
+    found = []
+    for name, m in list(sys.modules.items()):
+        if m is None or not (name == prefix or name.startswith(prefix + '.')):
+            continue
+        for obj in list(vars(m).values()):
+            funcs = []
+            if inspect.isfunction(obj) and obj.__module__ == name:
+                funcs.append(obj)
+            elif inspect.isclass(obj) and obj.__module__ == name:
+                funcs += [f for f in vars(obj).values() if inspect.isfunction(f)]
+                funcs += [f.__func__ for f in vars(obj).values() if isinstance(f, (staticmethod, classmethod))]
+            for f in funcs:
+                d, kd = f.__defaults__, f.__kwdefaults__
+                if (d and not all(_is_immutable(v) for v in d)) or (kd and not all(_is_immutable(v) for v in kd.values())):
+                    found.append((f, copy.deepcopy(d), copy.deepcopy(kd)))
+
+    def reset():
+        for f, d, kd in found:
+            if d is not None:
+                f.__defaults__ = copy.deepcopy(d)
+            if kd is not None:
+                f.__kwdefaults__ = copy.deepcopy(kd)
+    reset.functions = [f"{f.__module__}.{f.__qualname__}" for f, _d, _k in found]
+    return reset
